@@ -389,11 +389,17 @@ func (c *Ctx) configWriters(rule string, fields ...string) {
 // Config field is assigned only where its previous value was found zero (nil for functions). A "sanity" rewrite of a non-zero
 // value, or a field reset because of what other fields hold, replaces what the user configured.
 func (c *Ctx) configOverwrites(rule string) {
-	r := c.R
 	name := "Trait.init"
 	if fd, _ := c.funcDecl(name); fd == nil {
 		name = "NewTrait"
 	}
+	c.configOverwritesIn(rule, name, "Config", nil)
+}
+
+// configOverwritesIn: the same for any constructor: fields of the configuration struct `owner` are assigned only where found zero.
+// except lists fields of nested configuration the constructor legitimately fills from its own (BackendConfig.Name/Logger/Stats).
+func (c *Ctx) configOverwritesIn(rule, name, owner string, except map[string]bool) {
+	r := c.R
 	e, paths, _, err := c.runFunc(name, pw.Policy{Inline: inlineUnexported, MaxDepth: 2})
 	if err != nil {
 		r.Unknown(rule, name+":config-overwrites", err.Error())
@@ -404,10 +410,13 @@ func (c *Ctx) configOverwrites(rule string) {
 	for _, p := range paths {
 		orig := map[string]*pw.Val{}
 		for _, ev := range p.Events {
-			if ev.Field == nil || fieldOwnerName(ev.Field) != "Config" {
+			if ev.Field == nil || fieldOwnerName(ev.Field) != owner {
 				continue
 			}
 			f := fname(ev.Field)
+			if except[f] {
+				continue
+			}
 			switch ev.Kind {
 			case pw.EvFieldRead:
 				if orig[f] == nil {
@@ -433,13 +442,13 @@ func (c *Ctx) configOverwrites(rule string) {
 				}
 				if !ok && !bad[f] {
 					bad[f] = true
-					r.Bad(rule, name, "config-overwritten:"+f, c.Pos(ev.Pos), "Config."+f+" is assigned on a path that does not establish that it was zero: a value the user configured is replaced", shortTrace(p))
+					r.Bad(rule, name, "config-overwritten:"+f, c.Pos(ev.Pos), owner+"."+f+" is assigned on a path that does not establish that it was zero: a value the user configured is replaced", shortTrace(p))
 				}
 			}
 		}
 	}
 	if len(bad) == 0 {
-		r.OK(rule, name+":config-overwrites", fmt.Sprintf("%d assignments to Config fields, each only where the field was found zero", n))
+		r.OK(rule, name+":config-overwrites", fmt.Sprintf("%d assignments to %s fields, each only where the field was found zero", n, owner))
 	}
 }
 
